@@ -310,7 +310,13 @@ func (x *Exec) load(st *State, p *Ptr) Value {
 	}
 	v, ok := st.store[p.cell]
 	if !ok {
-		fail("load from unknown cell %s", p.cell.name)
+		if gv, isG := x.gstate.store[p.cell]; isG {
+			// global first touched after this state was forked (foreign package variable)
+			st.store[p.cell] = gv
+			v = gv
+		} else {
+			fail("load from unknown cell %s", p.cell.name)
+		}
 	}
 	if sa, ok := v.(*SymArr); ok {
 		return x.symArrLoad(st, sa, p)
@@ -406,8 +412,17 @@ func (x *Exec) symLeaf(st *State, t types.Type, name string, idx *Term) Value {
 	switch u := t.Underlying().(type) {
 	case *types.Basic:
 		if s, ok := sortOf(t); ok {
-			return x.ufApp(st, "sel_"+name, s, []*Term{idx})
+			v := x.ufApp(st, "sel_"+name, s, []*Term{idx})
+			if s == SInt && u.Info()&types.IsUnsigned != 0 {
+				st.axiom(mkLe(mkInt(0), v))
+			}
+			return v
 		}
+		if u.Info()&types.IsString != 0 {
+			return &Str{sym: x.ufApp(st, "sel_"+name+"$str", SInt, []*Term{idx})}
+		}
+	case *types.Pointer:
+		return &Opaque{typ: t, tag: "elem$" + name}
 	case *types.Struct:
 		el := make([]Value, u.NumFields())
 		for i := range el {
@@ -432,8 +447,28 @@ func (x *Exec) symArrLoad(st *State, sa *SymArr, p *Ptr) Value {
 	v := x.symArrElem(st, sa, p.sym)
 	for i := 0; i < len(sa.writes); i++ {
 		w := sa.writes[i]
-		nv, ok := iteValue(mkEq(w.idx, p.sym), w.val, v)
+		var nv Value
+		var ok bool
+		if w.src != nil {
+			// bulk copy: indices [idx, idx+n) come from src[srcOff ...]
+			in := mkAnd(mkLe(w.idx, p.sym), mkLt(p.sym, mkAdd(w.idx, w.n)))
+			sv := x.symArrLoad(st, w.src, &Ptr{cell: p.cell, sym: mkAdd(w.srcOff, mkSub(p.sym, w.idx))})
+			nv, ok = iteValue(in, sv, v)
+		} else {
+			nv, ok = iteValue(mkEq(w.idx, p.sym), w.val, v)
+		}
 		if !ok {
+			// non-mergeable element kinds (pointers): keep the written value when the index matches syntactically
+			if w.src == nil && w.idx == p.sym {
+				v = w.val
+				continue
+			}
+			if w.src == nil {
+				if _, isPtr := w.val.(*Ptr); isPtr {
+					v = &Opaque{tag: "elem$" + sa.name}
+					continue
+				}
+			}
 			fail("cannot merge symbolic array element")
 		}
 		v = nv
@@ -451,7 +486,7 @@ func (x *Exec) symArrStore(st *State, sa *SymArr, p *Ptr, nv Value) *SymArr {
 		full = setPath(old, p.path, nv)
 	}
 	n := &SymArr{elem: sa.elem, name: sa.name}
-	n.writes = append(append([]symWrite{}, sa.writes...), symWrite{p.sym, full})
+	n.writes = append(append([]symWrite{}, sa.writes...), symWrite{idx: p.sym, val: full})
 	return n
 }
 
@@ -465,7 +500,11 @@ func (x *Exec) globalCell(g *ssa.Global) *Cell {
 	et := g.Type().(*types.Pointer).Elem()
 	c := newCell(g.Pkg.Pkg.Name()+"."+g.Name(), et)
 	x.globals[g] = c
-	x.gstate.store[c] = zeroValue(et)
+	if g.Pkg != nil && !strings.HasPrefix(g.Pkg.Pkg.Path(), modulePath) {
+		x.gstate.store[c] = &Opaque{typ: et, tag: "global$" + g.Name()}
+	} else {
+		x.gstate.store[c] = zeroValue(et)
+	}
 	return c
 }
 
@@ -754,9 +793,29 @@ func theoryAxioms(apps []appRec) []*Term {
 }
 
 func (x *Exec) externalCall(st *State, name string, sig *types.Signature, args []Value) []Out {
-	x.note("external call " + name + ": results arbitrary, no heap effect on modelled cells assumed")
+	x.note("external call " + name + ": results arbitrary; memory reachable through its pointer arguments is havocked, nothing else changes")
 	st.log = append(st.log, Event{kind: "ext:" + name, args: args})
 	st.version++
+	for _, a := range args {
+		p, ok := a.(*Ptr)
+		if !ok || p.cell == nil {
+			continue
+		}
+		old, ok := st.store[p.cell]
+		if !ok {
+			continue
+		}
+		if _, isSym := old.(*SymArr); isSym {
+			continue
+		}
+		sub := getPath(old, p.path)
+		var pt types.Type
+		if p.cell.typ != nil && len(p.path) == 0 {
+			pt = p.cell.typ
+		}
+		st.store[p.cell] = setPath(old, p.path, x.havocLike(st, sub, pt, "ext$"+sanitize(name)))
+		st.wlog = append(st.wlog, p.cell.id)
+	}
 	res := sig.Results()
 	vals := make([]Value, res.Len())
 	for i := 0; i < res.Len(); i++ {
@@ -774,7 +833,26 @@ func (x *Exec) havocResult(st *State, t types.Type, name string) Value {
 	if isErrorType(t) {
 		return &Opaque{typ: t, tag: "err:" + name, nilT: freshVar("errnil$"+name, SBool)}
 	}
+	if foreignType(t) {
+		return &Opaque{typ: t, tag: "ext$" + name}
+	}
 	return x.symValue(st, t, "ext$"+name)
+}
+
+// foreignType: pointers / structs / interfaces declared outside the module
+// are not modelled structurally.
+func foreignType(t types.Type) bool {
+	if p, ok := t.(*types.Pointer); ok {
+		t = p.Elem()
+	}
+	n, ok := t.(*types.Named)
+	if !ok {
+		return false
+	}
+	if n.Obj().Pkg() == nil {
+		return false
+	}
+	return !strings.HasPrefix(n.Obj().Pkg().Path(), modulePath)
 }
 
 func (x *Exec) doCall(st *State, fr *Frame, c *ssa.CallCommon) []Out {
@@ -1056,6 +1134,9 @@ func (x *Exec) runInstrs(st *State, fr *Frame, b *ssa.BasicBlock, idx int, prev 
 			fr.defers = nil
 			fr.dregs = nil
 		case *ssa.Call:
+			if fr.ct != nil && len(fr.ct.callAsserts) > 0 {
+				x.checkCallAsserts(st, fr, in.Common())
+			}
 			mark := cellCtr
 			outs := x.doCall(st, fr, in.Common())
 			outs = x.maybeMergeOuts(st, outs, mark)
@@ -1469,4 +1550,23 @@ func (x *Exec) tryMergeRegion(st *State, fr *Frame, b *ssa.BasicBlock, c *Term) 
 		}
 	}
 	return j, true
+}
+
+// checkCallAsserts: "callassert <callee> <expr>" obligations of the contract
+// under verification, evaluated over the caller's Go variables at the call.
+func (x *Exec) checkCallAsserts(st *State, fr *Frame, c *ssa.CallCommon) {
+	callee, ok := c.Value.(*ssa.Function)
+	if !ok {
+		return
+	}
+	for _, ca := range fr.ct.callAsserts {
+		if ca.label != callee.Name() {
+			continue
+		}
+		env := x.frameEnv(fr)
+		x.specMode++
+		t := x.evalClause(st, env, ca)
+		x.specMode--
+		x.oblige(st, "call."+callee.Name()+".guard", t, "at every call of "+callee.Name()+": "+ca.text)
+	}
 }
